@@ -121,6 +121,13 @@ def cases(draw, name, tier):
             case["plan"].insert(draw(st.integers(0, len(case["plan"]))), ["mutate", i, how, 900 + k])
         if not TOOLS[name].infinite:
             case["plan"] = case["plan"] + [0, 0]  # an append may have made the input longer
+    if name == "tee" and case["params"].get("n", 0) >= 2 and lists and case["srcs"][0]["fl"] == "list" \
+            and draw(st.integers(0, 2)) == 0:
+        # deliberately: one child runs to the end, THEN the caller's list grows, then a sibling reads - the children
+        # share one pass over the list, so the sibling sees what the first child saw
+        total = len(case["srcs"][0]["items"])
+        case["srcs"][0]["mutable"] = True
+        case["plan"] = [0] * (total + 1) + [["mutate", 0, "append", 990]] + [1] * (total + 2) + [0]
     if TOOLS[name].outer and case["params"]["outer"].get("fl") == "list" and case["plan"] and draw(st.integers(0, 1)) == 0:
         # ... or the list OF iterables it handed to chain.from_iterable (a work queue that is still being filled)
         case["params"]["outer"]["mutable"] = True
